@@ -33,6 +33,7 @@ def gen_dag_scenario(rng, *, backend, shape=None, nmax=10, types=None, gated=Non
         scn['gated'] = (rng.random() < 0.7) if gated is None else gated
         if not scn['gated']:
             scn['free_sleep'] = [0.0, 0.005, 0.02, 0.04]
+    scn['pickled_copies'] = rng.random() < 0.2
     scn['batch_bias'] = rng.choice([0.2, 0.5, 0.8])
     scn['release_bias'] = rng.choice([0.2, 0.4, 0.7])
     if failing:
@@ -48,7 +49,7 @@ def scn_key(scn):
     """Canonical identity of a scenario for the distinct count."""
     return [spec_signature(scn['spec']), scn['backend'], scn.get('max_workers'), sorted(scn.get('pre') or []),
             scn.get('bust'), scn.get('fresh_prob'), scn.get('sched_seed'), sorted((scn.get('failing') or {}).items()),
-            scn.get('gated')]
+            scn.get('gated'), scn.get('pickled_copies')]
 
 
 def scn_summary(scn, out=None):
